@@ -42,6 +42,8 @@ type Solver struct {
 	Log     io.Writer
 	argv    []string
 	dead    bool
+	inPath  bool
+	paths   int
 }
 
 // New starts a solver. argv e.g. {"z3","-in"}.
@@ -101,16 +103,26 @@ func (s *Solver) Close() {
 	}
 }
 
-// Reset clears all assertions and definitions.
+// Reset clears all assertions and definitions (scoped push/pop; a full
+// solver reset every 256 paths keeps the solver's memory bounded).
 func (s *Solver) Reset() {
 	if s.dead {
 		s.Close()
 		s.start()
-		return
+		s.inPath = false
 	}
-	s.send("(reset)\n")
+	s.paths++
+	if s.inPath {
+		s.send("(pop 1)\n")
+		s.inPath = false
+	}
+	if s.paths%256 == 0 {
+		s.send("(reset)\n")
+		s.preamble()
+	}
 	s.pr.Reset()
-	s.preamble()
+	s.send("(push 1)\n")
+	s.inPath = true
 }
 
 func (s *Solver) Push() {
